@@ -367,6 +367,7 @@ def check_e2e(rep, known, scns, info, stats):
     model, mcr = vlib.run_lines(info["model_policy"], lines, shards=min(vlib.NPROC, max(1, len(lines) // 50)))
     for line, err in mcr:
         rep.violation("extracted bus model failed on a scenario: %s" % err[-300:], {"line": line, "names": "model driver"}, found_input=False)
+    pe.noinotify_shim()       # build the LD_PRELOAD shim once, before the workers fork
     nproc = max(1, min(vlib.NPROC, 8, len(scns)))
     ctx = multiprocessing.get_context("fork")
     with ctx.Pool(nproc) as pool:
